@@ -218,6 +218,9 @@ blocks_case!(cfb8_dec_b2_n3, 48, cfb8::Decryptor, dec, U2, 2, U2, 2, U1, 3, U1, 
 blocks_case!(ofb_enc_b2_w2_n3, 48, ofb::OfbCore, enc, U2, 2, U2, 2, U2, 3, U2, 2);
 blocks_case!(ofb_dec_b2_w2_n3, 48, ofb::OfbCore, dec, U2, 2, U2, 2, U2, 3, U2, 2);
 oneshot_case!(cfb_enc_b2_w2_l7, 48, cfb_mode, Encryptor, enc, encrypt_inout, U2, 2, U2, 7);
+oneshot_case!(cfb_enc_b2_w2_l6, 48, cfb_mode, Encryptor, enc, encrypt_inout, U2, 2, U2, 6);
+oneshot_case!(cfb_dec_b2_w2_l6, 48, cfb_mode, Decryptor, dec, decrypt_inout, U2, 2, U2, 6);
+oneshot_case!(cfb_enc_b2_w1_l2, 48, cfb_mode, Encryptor, enc, encrypt_inout, U2, 2, U1, 2);
 oneshot_case!(cfb_dec_b2_w2_l7, 48, cfb_mode, Decryptor, dec, decrypt_inout, U2, 2, U2, 7);
 oneshot_case!(cfb8_enc_b2_l5, 48, cfb8, Encryptor, enc, encrypt_inout, U2, 2, U1, 5);
 oneshot_case!(cfb8_dec_b2_l5, 48, cfb8, Decryptor, dec, decrypt_inout, U2, 2, U1, 5);
